@@ -82,7 +82,8 @@ def sync_rule(ctx, prog):
                     wrote = lin_add(wrote, w[2], 1)
                 for e in evs:
                     if e[0] in ('WRITE', 'WRITE_ERR'):
-                        if '[o..]' not in str(e[1]) or 'buffer' not in str(e[1]):
+                        wb, ws = io.window(e[1])
+                        if ws != 'o' or 'buffer' not in wb:
                             ctx.violation('T-SYNC', 'window', 'the sink is offered %s, expected self.buffer from the stored offset' % (e[1],), where)
                             good = False
                 zero = [w for w in writes if nrange(o, w[2].terms[0][0]) == (0, 0)]
